@@ -10,7 +10,7 @@
 (***************************************************************************)
 EXTENDS PFMActions, Json
 
-CONSTANTS Depth, OutDir, ADV_PCT, TIMEOUT_PCT
+CONSTANTS Depth, OutDir, ADV_PCT, TIMEOUT_PCT, XI_PCT
 
 VARIABLES S, sched
 
@@ -24,7 +24,8 @@ Adversarial(T) == LateRecv(T) \cup LastChanceRecv(T) \cup EarlyTimeout(T) \cup S
 
 Pick(T) ==
     CHOOSE x \in UNION { UNION {
-        { IF Quiescent(T) THEN PickOne(Journeys)
+        { IF roll2 <= XI_PCT /\ roll > 50 THEN [a |-> "XImport", dt |-> 1, c |-> PickOne({"A", "B", "C"})]
+          ELSE IF Quiescent(T) THEN PickOne(Journeys)
           ELSE IF roll <= ADV_PCT /\ Adversarial(T) # {} THEN PickOne(Adversarial(T))
           ELSE IF roll2 <= TIMEOUT_PCT /\ TimeoutActs(T) # {} THEN PickOne(TimeoutActs(T))
           ELSE IF RecvActs(T) \cup AckActs(T) # {} THEN PickOne(RecvActs(T) \cup AckActs(T))
